@@ -335,7 +335,7 @@ CHECKS['C10'] = {
     'assumptions': [],
     'targets': [
         {'name': 'c10_refcount', 'src': ['harness/C10_refcount.cpp'], 'quick_n': 600000, 'thorough_n': 4800000, 'maxlen': 300, 'min_nontrivial': 50000, 'budget': 120,
-         'class_floors': {'case_single_threaded_history': 50000, 'case_multi_threaded': 200000, 'case_final_release_by_another_thread': 50000, 'case_non_counting_reference_switched_to_counting': 10000, 'case_pool_drained_in_mid_history': 50000, 'case_reference_neutralized': 10000}},
+         'class_floors': {'case_single_threaded_history': 50000, 'case_multi_threaded': 200000, 'case_final_release_by_another_thread': 50000, 'case_non_counting_reference_switched_to_counting': 10000, 'case_pool_drained_in_mid_history': 50000, 'case_reference_neutralized': 5000, 'case_last_reference_stopped_counting_and_resumed': 8000}},
         {'name': 'c10_tsan', 'src': ['harness/C10_tsan.cpp'], 'variant': 'tsan', 'fuzz': False, 'coverage': False, 'quick_n': 24000, 'thorough_n': 192000, 'maxlen': 16, 'min_nontrivial': 5000, 'budget': 300, 'repro_min': 1,
          'class_floors': {'thread_echo_runs': 1000}},
     ],
